@@ -9,7 +9,7 @@ BUDGET = dict(quick=1600, thorough=50000)
 ANCHORS = ['numdifftools.nd_scipy:Jacobian.__call__', 'numdifftools.nd_scipy:Gradient.__call__']
 MIN_COUNTERS = dict(quick={'jacobian_entries_asserted': 5000, 'gradient_asserted': 300, 'bounds_points_asserted': 3000,
                            'forwarding_asserted': 1000, 'method:central': 200, 'method:forward': 200,
-                           'method:complex': 200, 'bounds_active_cases': 200},
+                           'method:complex': 200, 'bounds_active_cases': 200, 'gradient_of_non_contiguous_matrix_x': 30},
                     thorough={'jacobian_entries_asserted': 100000})
 RULE = ('n in 1..6, m in 1..5, affine f = A x + b and smooth nonlinear f = sin(Ax)*exp(Bx) + c (analytic Jacobian), methods '
         'central/forward/complex, relative step None or given, random boxes with x inside or exactly on the boundary, extra '
@@ -36,7 +36,7 @@ def cases(rng, tier, shard, nshards):
                    family=str(rng.choice(['affine', 'smooth'])), seed=int(rng.integers(0, 2 ** 31)),
                    step=None if rng.random() < 0.6 else float(10.0 ** rng.uniform(-7, -4)),
                    bounds=str(rng.choice(['none', 'box', 'on_lower', 'on_upper', 'tight'])),
-                   gradient=bool(rng.random() < 0.3), xshape=str(rng.choice(['vector', 'matrix', 'scalar'])))
+                   gradient=bool(rng.random() < 0.3), xshape=str(rng.choice(['vector', 'matrix', 'matrix', 'scalar'])))
 
 
 def run_case(case, ctx):
@@ -80,6 +80,16 @@ def run_case(case, ctx):
         ctx.count('bounds_active_cases')
     if gradient and case['xshape'] == 'matrix' and n % 2 == 0:
         xin = x.reshape(2, n // 2)
+        # the same logical matrix in another memory layout (the gradient is ordered like x.ravel(), logically)
+        layout = str(rng.choice(['C', 'F', 'strided']))
+        if layout == 'F':
+            xin = np.asfortranarray(xin)
+        elif layout == 'strided':
+            big = np.zeros((2, n))
+            big[:, ::2] = xin
+            xin = big[:, ::2]
+        if n >= 4 and layout != 'C':
+            ctx.count('gradient_of_non_contiguous_matrix_x')
     elif gradient and case['xshape'] == 'scalar' and n == 1:
         xin = float(x[0])
     else:
